@@ -49,6 +49,77 @@ class Unit:
         raise KeyError(name)
 
 
+def load_spec(path):
+    """sidecar contract file:  //@ fn NAME ; then sections //@ contract | //@ loop K | //@ harness | //@ replace a b |
+    //@ props C01 C02 | //@ opt key=value | //@ weave <where> [loop=K] /regex/  (code on following lines)"""
+    specs, cur, sec = {}, None, None
+    for line in open(path):
+        m = re.match(r'\s*//@\s*(\w+)\s*(.*)', line)
+        if m:
+            key, rest = m.group(1), m.group(2).strip()
+            if key == 'fn':
+                cur = specs.setdefault(rest, dict(contract='', loops={}, harness='', replace=[], props=[], opt={}, weave=[]))
+                sec = None
+            elif key == 'contract':
+                sec = ('contract',)
+            elif key == 'loop':
+                sec = ('loop', int(rest)); cur['loops'][int(rest)] = ''
+            elif key == 'harness':
+                sec = ('harness',)
+            elif key == 'replace':
+                cur['replace'] += rest.split(); sec = None
+            elif key == 'props':
+                cur['props'] += rest.split(); sec = None
+            elif key == 'opt':
+                k, _, v = rest.partition('='); cur['opt'][k.strip()] = v.strip(); sec = None
+            elif key == 'weave':
+                mm = re.match(r'(\S+)\s*(?:loop=(\d+))?\s*(?:/(.*)/)?\s*(?:min=(\d+))?\s*(?:max=(\d+))?$', rest)
+                w = dict(where=mm.group(1), code='')
+                if mm.group(2): w['loop'] = int(mm.group(2))
+                if mm.group(3): w['at'] = mm.group(3)
+                if mm.group(4): w['min'] = int(mm.group(4))
+                if mm.group(5): w['max'] = int(mm.group(5))
+                cur['weave'].append(w); sec = ('weave', w)
+            elif key == 'end':
+                sec = None
+            continue
+        if cur is None or sec is None:
+            continue
+        if sec[0] == 'contract':
+            cur['contract'] += line
+        elif sec[0] == 'loop':
+            cur['loops'][sec[1]] += line
+        elif sec[0] == 'harness':
+            cur['harness'] += line
+        elif sec[0] == 'weave':
+            sec[1]['code'] += line.strip() + ' '
+    return specs
+
+
+def apply_spec(fns, path):
+    specs = load_spec(path)
+    byname = {f.name: f for f in fns}
+    for name, sp in specs.items():
+        if name not in byname:
+            raise L.ExtractionBreak('spec for unknown function %s in %s' % (name, path))
+        f = byname[name]
+        f.contract = sp['contract']
+        f.loops = sp['loops']
+        f.harness = sp['harness'] or None
+        f.replace = sp['replace']
+        f.props = sp['props']
+        f.weave = list(f.weave) + sp['weave']
+        for k, v in sp['opt'].items():
+            if k in ('timeout', 'unwind', 'mem_gb', 'objbits'):
+                setattr(f, k, int(v))
+            elif k == 'flags':
+                f.flags = v.split()
+            elif k in ('cover', 'no_enforce'):
+                setattr(f, k, v not in ('0', 'false', 'no'))
+            else:
+                setattr(f, k, v)
+
+
 def load_unit(name):
     path = os.path.join(VERIF, 'units', name + '.py')
     spec = importlib.util.spec_from_file_location('vx_unit_' + name, path)
@@ -75,13 +146,17 @@ extern int vx_thrown;            /* R11: ghost flag, site of the throw that ende
 def build_unit_text(unit, src):
     """returns (C text without harness, per-function info)"""
     out = [COMMON]
-    for macro, rx, scope in unit.consts:
-        val = src.grab(rx, 1, scope)
-        val, _ = L.lower(val, [])
-        out.append('#define %s (%s)\n' % (macro, val.strip()))
     for rx in getattr(unit, 'facts', []):
         src.grab(rx, 0)            # static fact: must match exactly once, else extraction break
-    out.append(unit.prelude)
+    for cname, rx, scope in getattr(unit, 'enums', []):
+        # R2: C enum generated from the real enumerator list
+        items = [x.strip() for x in src.grab(rx, 1, scope).split(',') if x.strip()]
+        out.append('enum %s { %s };\n' % (cname, ', '.join('%s__%s' % (cname, it) for it in items)))
+    for macro, rx, scope in unit.consts:
+        val = src.grab(rx, 1, scope)
+        val, _ = L.lower(val, getattr(unit, 'const_rules', []))
+        out.append('#define %s (%s)\n' % (macro, val.strip()))
+    out.append('@@PRELUDE@@')
     # prototypes
     for f in unit.fns:
         out.append(f.csig + ';\n')
@@ -103,7 +178,17 @@ def build_unit_text(unit, src):
         out.append('/* ---- %s  (ctpg.hpp:%d-%d, sha %s) ---- */\n' % (f.name, ex['line'], ex['end_line'], ex['sha']))
         out.append(f.csig + '\n' + f.contract.strip() + '\n/*VX_BODY %s*/' % f.name + body + '\n')
     out.append(unit.post)
-    return ''.join(out), info
+    prelude = unit.prelude
+    # R10: the event kinds found by the Emit rules of this unit become an enum
+    kinds = []
+    for f in unit.fns:
+        for r in f.rules:
+            for k in getattr(r, 'kinds', []):
+                if k not in kinds:
+                    kinds.append(k)
+    if '@@EV_ENUM@@' in prelude:
+        prelude = prelude.replace('@@EV_ENUM@@', 'enum vx_ev_kind { EV_none, %s };' % ', '.join(kinds))
+    return ''.join(out).replace('@@PRELUDE@@', prelude), info
 
 
 def cover_variant(text, fname_body_marker):
